@@ -52,6 +52,7 @@ func init() {
 		p.side(tCmp("<=", termOf(args[0]), v.t))
 		p.side(tCmp("<=", v.t, termOf(args[1])))
 		v.t.lo, v.t.hi = termOf(args[0]).val, termOf(args[1]).val
+		v.t.loInit = v.t.lo
 		return v
 	}
 	// concretize(v int) int: fork on every feasible value in [lo,hi]
@@ -84,14 +85,16 @@ func init() {
 			e.cur.side(c)
 			return nil
 		}
-		r := e.feasible(c)
+		r := e.sat(c)
 		if r != "sat" {
 			if r != "unsat" {
 				panic(unsupported("solver answered " + r + " on an assumption"))
 			}
 			panic(pathAbort{"assume infeasible"})
 		}
+		w := e.witness
 		e.cur.side(c)
+		e.cur.adopt(w)
 		return nil
 	}
 	// check(c, label): the property. checkKF(c, label, sig, sigName): the same, with the region
@@ -112,9 +115,9 @@ func init() {
 			// violation outside the named region?
 			out := tAnd(tNot(c), tNot(sig))
 			if !(out.op == "bconst" && !out.bval) {
-				switch r := e.feasible(out); r {
+				switch r := e.sat(out); r {
 				case "sat":
-					e.addFinding(Finding{Kind: "check", Label: label, Inputs: e.model()})
+					e.addFinding(Finding{Kind: "check", Label: label, Inputs: e.inputsOf(e.witness)})
 				case "unsat":
 				default:
 					panic(unsupported("solver answered " + r + " on check " + label))
@@ -122,18 +125,18 @@ func init() {
 			}
 			in := tAnd(tNot(c), sig)
 			if !(in.op == "bconst" && !in.bval) {
-				switch r := e.feasible(in); r {
+				switch r := e.sat(in); r {
 				case "sat":
-					e.addFinding(Finding{Kind: "check", Label: label, Sig: sigName, Inputs: e.model()})
+					e.addFinding(Finding{Kind: "check", Label: label, Sig: sigName, Inputs: e.inputsOf(e.witness)})
 				case "unsat":
 				default:
 					panic(unsupported("solver answered " + r + " on check " + label))
 				}
 			}
 		} else {
-			switch r := e.feasible(tNot(c)); r {
+			switch r := e.sat(tNot(c)); r {
 			case "sat":
-				e.addFinding(Finding{Kind: "check", Label: label, Inputs: e.model()})
+				e.addFinding(Finding{Kind: "check", Label: label, Inputs: e.inputsOf(e.witness)})
 			case "unsat":
 			default:
 				panic(unsupported("solver answered " + r + " on check " + label))
@@ -143,13 +146,15 @@ func init() {
 			panic(pathAbort{"check failed concretely"})
 		}
 		// continue under the assumption that the check holds (if that is still feasible)
-		if r := e.feasible(c); r != "sat" {
+		if r := e.sat(c); r != "sat" {
 			if r != "unsat" {
 				panic(unsupported("solver answered " + r + " after check " + label))
 			}
 			panic(pathAbort{"check fails on the whole path"})
 		}
+		w := e.witness
 		e.cur.side(c)
+		e.cur.adopt(w)
 	}
 	harnessAPI["check"] = func(fr *frame, args []value) value {
 		doCheck(termOf(args[0]), args[1].(string), nil, "")
